@@ -23,6 +23,7 @@ from Solverz.equation.jac import Jac, JacBlock
 
 
 class Equations:
+    _has_time = False  # True if the generated functions take the time t as an argument
 
     def __init__(self,
                  eqn: Union[List[Eqn], Eqn],
@@ -54,6 +55,9 @@ class Equations:
     def add_eqn(self, eqn: Eqn):
         if eqn.name in self.EQNs.keys():
             raise ValueError(f"Equation {eqn.name} already defined!")
+        if self._has_time and 't' in eqn.SYMBOLS:
+            # the generated F_(t, y_, p_) binds `t` to time, a symbol of that name would shadow it
+            raise ValueError(f"Symbol name t in equation {eqn.name} is reserved for time in {type(self).__name__}!")
         self.EQNs.update({eqn.name: eqn})
         self.SYMBOLS.update(eqn.SYMBOLS)
         self.a.add(eqn.name)
@@ -317,6 +321,7 @@ class AE(Equations):
 
 
 class FDAE(AE):
+    _has_time = True
 
     def __init__(self,
                  eqn: Union[List[Eqn], Eqn],
@@ -335,6 +340,7 @@ class FDAE(AE):
 
 
 class DAE(Equations):
+    _has_time = True
 
     def __init__(self,
                  eqn: Union[List[Eqn], Eqn],
